@@ -241,6 +241,28 @@ def doc_value_correspondence(rep, cases, rng, quick, g):
     rep.coverage['document_value_model_correspondence'] = dict(n, documents=len(docs), with_a_machine_for_every_element=len(idx), differences=bad, distinct_texts=len(floats), first_differences=diffs[:25])
 
 
+def order_site(text_in, text_out):
+    """the first element (document order) whose children are the same elements in another order: (tag, names in the file, names emitted)"""
+    import xml.etree.ElementTree as ET
+    try:
+        a, b = ET.fromstring(text_in), ET.fromstring(text_out)
+    except ET.ParseError:
+        return None
+
+    def go(x, y):
+        if x.tag != y.tag:
+            return None
+        nx, ny = [c.tag for c in x], [c.tag for c in y]
+        if nx != ny:
+            return (x.tag, nx, ny) if sorted(nx) == sorted(ny) else None
+        for cx, cy in zip(x, y):
+            r = go(cx, cy)
+            if r:
+                return r
+        return None
+    return go(a, b)
+
+
 def mutate(node, rng):
     """returns (mutated copy, description) - each mutation adds something the output must keep or the parser must refuse"""
     d = copy.deepcopy(node)
@@ -320,6 +342,22 @@ def run(rep):
         if sc and sc in G.st and (G.st[sc]['union'] is not None or G.numeric_root(sc) in docgen.XS_NUM and not G.st[sc]['enum'] and not G.st[sc]['patterns']):
             for _ in range(6 if quick else 20):
                 cases.append(G.element(name, 0, 1))
+    # children taken from ENUMERATED words of the content model (all words up to length 5, the longer ones preferred): repeated groups with and
+    # without their optional members, in every combination the random walk of the generator rarely produces
+    from . import rx as _rx
+    for name in sorted(g['elements']):
+        t = G.etype.get(name)
+        part = g['xsd_particles'].get(t)
+        if not part or name in ('score-partwise', 'score-timewise'):
+            continue
+        repeats = 'unbounded' in json.dumps(part).split('"E"')[0] or any(seg.count('unbounded') for seg in json.dumps(part).split('["G"')[1:] + json.dumps(part).split('["S"')[1:] + json.dumps(part).split('["C"')[1:])
+        ws = [w for w in _rx.words(_rx.of_tree(part), _rx.alphabet(part), 5, 60) if len(w) >= 3]
+        rng.shuffle(ws)
+        ws.sort(key=lambda w: -len(w))
+        for w in ws[:((30 if repeats else 2) if quick else (200 if repeats else 12))]:
+            d = G.element(name, 9, 2)
+            d['kids'] = [G.element(x, 1, 2) for x in w]
+            cases.append(d)
     texts = [docgen.to_xml(c) for c in cases]
     # repository sample files
     samples = []
@@ -338,6 +376,7 @@ def run(rep):
         muts.append((m, what, docgen.to_xml(m)))
     _, r_mut = docs.run_docs(xml=[t for _, _, t in muts])
     n_ok = 0
+    order_sites = []
     for node, text, r in zip(cases, texts, r_valid):
         if 'exc' in r:
             key = 'C09:%s:%s' % (r['step'], cause(r.get('msg'), r['exc']))
@@ -347,9 +386,41 @@ def run(rep):
         d = infoset.diff_text(text, r['s'])
         if d:
             kind = 'text' if ': text ' in d else ('order' if 'children became' in d or 'element <' in d else ('attribute' if 'attribute' in d else 'other'))
+            if kind == 'order':
+                # a reordering is the recorded finding only where the pinned faithful model of the matcher predicts exactly this order for exactly these children
+                site = order_site(text, r['s'])
+                if site is not None:
+                    order_sites.append((node, text, r['s'], d, site))
+                    continue
             rep.finding_or_violation('C09:loss:%s' % kind, 'schema-valid <%s> document is altered by parse + serialise: %s' % (node['tag'], d), {'document': text[:2500], 'difference': d, 'output': r['s'][:2500]})
         else:
             n_ok += 1
+    if order_sites:
+        from . import extract
+        import sys
+        sys.path.insert(0, os.path.join(C.VERIF, 'tr'))
+        from schema import cls_name
+        mm_ = extract.Model()
+        try:
+            tcls = {}
+            for name, tys in g['elements'].items():
+                t_ = tys[0][6:] if tys[0].startswith('<anon>') else tys[0]
+                tcls[name] = cls_name(t_, 'XSDComplexType')
+            ok_sites = [x for x in order_sites if tcls.get(x[4][0]) in mm_.idx and all(n_ in mm_.sym for n_ in x[4][1])]
+            runs = mm_.run_py([{'type': tcls[x[4][0]], 'ops': [['a', n_] for n_ in x[4][1]] + [['f', 0]]} for x in ok_sites])
+        finally:
+            mm_.close()
+        pred = {}
+        for x, rr in zip(ok_sites, runs):
+            last = rr[-1]
+            pred[id(x)] = [x[4][1][i] for i in last['ord']] if all(o['st'] == 'ok' for o in rr[:-1]) and all(i < len(x[4][1]) for i in last['ord']) else None
+        for x in order_sites:
+            node, text, out_s, d, (tag, win, wout) = x
+            rp = {'document': text[:2500], 'difference': d, 'output': out_s[:2500], 'element': tag, 'children_in_the_file': win, 'children_emitted': wout, 'model_predicts': pred.get(id(x)) == wout}
+            if pred.get(id(x)) == wout:
+                rep.finding_or_violation('C09:loss:order', 'schema-valid <%s> document is altered by parse + serialise: %s' % (node['tag'], d), rp)
+            else:
+                rep.violation('schema-valid <%s> document: <%s> with children %s is emitted as %s (the pinned model of the matcher predicts %s)' % (node['tag'], tag, win, wout, pred.get(id(x))), rp)
     for (fn, text), r in zip(samples, r_samples):
         if 'exc' in r:
             rep.finding_or_violation('C09:sample:%s' % fn, 'sample file %s: %s raises %s' % (fn, r['step'], r['exc']), {'file': fn, 'message': r.get('msg')})
